@@ -713,7 +713,29 @@ func (e *Enc) fireAt(kind, name string, before bool, pos token.Pos, st *State, e
 		if aa.Ord != 0 && aa.Ord != e.ords[cntKey] {
 			continue
 		}
-		f := e.evalBoolCtx(aa.C, mkctx())
+		// a clause that cannot be evaluated at THIS site (e.g. it names a variable that is not in
+		// scope at a newly added call the selector also matches) fails as its own obligation
+		// instead of discarding every obligation of the function
+		f, berr := func() (f string, berr string) {
+			defer func() {
+				if r := recover(); r != nil {
+					if ee, ok := r.(encErr); ok {
+						berr = string(ee)
+						return
+					}
+					panic(r)
+				}
+			}()
+			return e.evalBoolCtx(aa.C, mkctx()), ""
+		}()
+		if berr != "" {
+			if aa.Assume {
+				e.note("assume-at %s %s: cannot be evaluated at this site, NOT assumed: %s", kind, name, berr)
+				continue
+			}
+			e.oblige("assert", fmt.Sprintf("assert.%d@%s.%d", i+1, name, e.ords[cntKey]), sImp(cond, "false"), pos, "assert-at "+kind+" "+name+": the clause cannot be bound at this site (it holds nowhere): "+berr)
+			continue
+		}
 		if aa.Assume {
 			e.assumeHere(sImp(cond, f))
 			e.note("assume-at %s %s: %s (explicit assumption, not proved)", kind, name, aa.C.Src)
